@@ -297,6 +297,7 @@ pub fn judge_c12(game: &Game, acc: &mut Acc, runno: u64, z: &ZobristHasher) {
         }
         let best = *vals.iter().max().unwrap();
         acc.evals += 1;
+        acc.count(&format!("c12_depth_{}_judged", d));
         let enc = sb::encode_score(best);
         let static_first = succ.iter().enumerate().max_by_key(|(_, s)| s.order_heuristic).map(|(i, _)| i).unwrap_or(0);
         let best_idx = vals.iter().position(|x| *x == best).unwrap();
@@ -361,6 +362,15 @@ pub fn gen_mate_position(rng: &mut Rng) -> Pos {
             }
         }
         p.white_to_move = rng.chance(2, 3);
+        // a third of the positions: the side to move (often the weaker one) has a pawn one step
+        // from promotion, so that the choice of promotion piece decides between mate and escape
+        if rng.chance(1, 3) {
+            let f = rng.below(8) as i32;
+            let (s, target, pc) = if p.white_to_move { (r::sq(f, 6), r::sq(f, 7), r::PAWN) } else { (r::sq(f, 1), r::sq(f, 0), r::PAWN | r::BLACK) };
+            if p.sq[s as usize] == 0 && p.sq[target as usize] == 0 {
+                p.sq[s as usize] = pc;
+            }
+        }
         if !p.is_legal_position() {
             continue;
         }
